@@ -341,17 +341,32 @@ def fallback_rule(T, crate, prop="C10"):
                    b.file(), b.line())
     for name, t in sorted(T.items()):
         b = t.parent or t.body
-        ok = False
+        # the reader of the key may sit in the table's function or in a helper it calls
+        scope = [b]
         for blk, term in b.calls():
-            if fn_matches(term, r"ParseBuffer::<'_>::call::<proc_macro2::Ident>$") and not b.is_cleanup(blk):
-                # the function argument is IdentExt::parse_any
-                for o in origins(b, op_local(term["args"][1]), identity=[]):
-                    if o["kind"] == "const" and (o["c"] or {}).get("fn", {}).get("path", "").endswith("IdentExt::parse_any"):
-                        ok = True
-        r.inst(table=name, key_reader_accepts_keywords=ok)
-        if not ok:
-            r.fail(prop, "key-reader-rejects-keywords %s" % name, "keys of %s are not read with IdentExt::parse_any: a keyword-named key (`crate`, `type`, `as`) is a parse error that drops the whole attribute list" % name,
+            if not b.is_cleanup(blk):
+                scope += [hb for hb in crate.call_targets(b, term, ()) if hb.kind in ("Fn", "AssocFn") and hb.path.startswith("utils::")]
+        any_kw, plain = False, None
+        for sb in scope:
+            for blk, term in sb.calls():
+                if sb.is_cleanup(blk):
+                    continue
+                if fn_matches(term, r"ParseBuffer::<'_>::call::<proc_macro2::Ident>$"):
+                    # the function argument is IdentExt::parse_any
+                    for o in origins(sb, op_local(term["args"][1]), identity=[]):
+                        if o["kind"] == "const" and (o["c"] or {}).get("fn", {}).get("path", "").endswith("IdentExt::parse_any"):
+                            any_kw = True
+                elif fn_matches(term, r"IdentExt>::parse_any$", r"IdentExt::parse_any$"):
+                    any_kw = True
+                elif fn_matches(term, r"ParseBuffer::<'_>::parse::<proc_macro2::Ident>$", r"<proc_macro2::Ident as syn::parse::Parse>::parse$"):
+                    plain = (sb, term)
+        r.inst(table=name, key_reader_accepts_keywords=any_kw, plain_identifier_reads=plain is not None, examined=[x.path for x in scope][:6])
+        if not any_kw and plain is not None:
+            f, l = M.user_span(plain[1]["span"])
+            r.fail(prop, "key-reader-rejects-keywords %s" % name, "keys of %s are read as a plain identifier, not with IdentExt::parse_any: a keyword-named key (`crate`, `type`, `as`) is a parse error that drops the whole attribute list" % name,
                    b.file(), b.line())
+        elif not any_kw:
+            r.fail(prop, "anchor-missing key reader of %s" % name, "how the keys of %s are read was not recognised" % name, b.file(), b.line())
     r.floor = 12
     return r
 
